@@ -113,7 +113,9 @@ def main(tier):
         data = open(f, "rb").read()
         if b"INCLUDE" not in data:
             texts.append(("fixture", data.decode("utf-8", "surrogateescape")))
-    cases = [dict(rel.case("d%d" % n, t), reps=K) for n, (_, t) in enumerate(texts)]
+    # documents with regular expressions once more with the library's default options (no fixed seed option)
+    texts += [(k + "_default_options", t) for k, t in texts if " regex" in t][:(400 if thorough else 80)]
+    cases = [dict(rel.case("d%d" % n, t), reps=K, default_opts=k.endswith("_default_options")) for n, (k, t) in enumerate(texts)]
     # phase 1: K repetitions in one process
     obs1 = harness("run", cases)
     # phase 2: fresh processes (different hash seeds), one repetition each
